@@ -78,6 +78,7 @@ partial def expr : P Expr := do
   | "tensor" => do let a ← expr; let b ← expr; pure (.tensor a b)
   | "dagger" => do pure (.dagger (← expr))
   | "slice" => do let a ← expr; let s ← optInt; let e ← optInt; pure (.slice a s e)
+  | "slicerev" => do let a ← expr; let s ← optInt; let e ← optInt; pure (.sliceRev a s e)
   | "getitem" => do let a ← expr; let i ← int; pure (.getItem a i)
   | "interchange" => do
     let a ← expr; let i ← int; let j ← int; let l ← bool; pure (.interchange a i j l)
